@@ -158,3 +158,30 @@ func OnlyErrorReturnsFrom(b *ssa.BasicBlock) bool {
 	}
 	return true
 }
+
+// OnlyErrorValue reports whether v is known to be a non-nil error: the result of an error constructor (fmt.Errorf,
+// errors.New, a function whose every return is a non-nil error).
+func OnlyErrorValue(v ssa.Value) bool {
+	c, ok := v.(*ssa.Call)
+	if !ok {
+		return false
+	}
+	fn := StaticFn(c.Common())
+	if fn == nil {
+		return false
+	}
+	switch fn.String() {
+	case "fmt.Errorf", "errors.New":
+		return true
+	}
+	if fn.Blocks == nil {
+		return false
+	}
+	all := true
+	Instrs(fn, func(in ssa.Instruction) {
+		if rt, ok := in.(*ssa.Return); ok && ReturnsNilError(rt) {
+			all = false
+		}
+	})
+	return all
+}
